@@ -77,6 +77,7 @@ func load(fset *token.FileSet, dir, path string, known map[string]*types.Package
 		Uses:       map[*ast.Ident]types.Object{},
 		Defs:       map[*ast.Ident]types.Object{},
 		Selections: map[*ast.SelectorExpr]*types.Selection{},
+		Instances:  map[*ast.Ident]types.Instance{},
 	}
 	conf := types.Config{
 		Importer: chainImporter{known, importer.ForCompiler(fset, "source", nil)},
